@@ -177,6 +177,7 @@ RunWake(W0, i) ==
 Better(a, b) == a[1] < b[1] \/ (a[1] = b[1] /\ a[2] < b[2])
 LiveQ(W)     == {e \in W.q : W.fs[e[3]][1] = "pend"}
 BestOf(S)    == CHOOSE e \in S : \A x \in S : x = e \/ Better(e, x)
+WorstOf(S)   == CHOOSE e \in S : \A x \in S : x = e \/ Better(x, e)
 
 RunCheck(W) ==
   IF W.locked THEN [W EXCEPT !.frozen = TRUE]         \* threading.Lock never released: loop blocks
@@ -184,7 +185,10 @@ RunCheck(W) ==
        THEN [Trip(W, "_check_buffer_for_cmd:is_sending") EXCEPT !.locked = ~FixLockRelease]
   ELSE IF W.fut # None /\ ~FutDone(W, W.fut) THEN W
   ELSE IF FixCheckIdleOnly /\ W.st # "Idle" THEN W       \* repaired: a slot is free only in IsInIdle
-  ELSE IF LiveQ(W) = {} THEN [W EXCEPT !.q = {}, !.cmd = None, !.fut = None]
+  ELSE IF LiveQ(W) = {} THEN            \* every entry popped is done: each still sets tx count/limit
+       IF W.q = {} THEN [W EXCEPT !.cmd = None, !.fut = None]
+       ELSE [W EXCEPT !.q = {}, !.cmd = None, !.fut = None, !.txc = 0,
+                      !.txl = Min2(MaxRetries[WorstOf(W.q)[3]], 3) + 1]
   ELSE LET e  == BestOf(LiveQ(W))
            c  == e[3]
            \* entries ahead of e that are already done were popped and skipped
